@@ -833,6 +833,10 @@ pub fn burst_sessions(run: &mut Run, prop: &'static str) {
     // strace may be unavailable (ptrace forbidden): then only the undelayed sessions run
     let strace_ok = std::process::Command::new("strace").args(["-f", "-q", "-e", "trace=write", "-e", "inject=write:delay_exit=1", "-o", "/dev/null", "true"]).output().map(|o| o.status.success()).unwrap_or(false);
     run.set("strace_write_delay_injection_available", json!(strace_ok));
+    let pt_ok = bb::ptdelay_tool(&plain).is_some();
+    run.set("ptrace_stdout_call_delay_injection_available", json!(pt_ok));
+    let pt_hits = std::sync::atomic::AtomicU64::new(0);
+    let pt_delayed = std::sync::atomic::AtomicU64::new(0);
     let res = run_parallel(16, sessions, |sid| {
         let mut acc = Acc::new();
         let mut rng = Rng::stream(seed, 0xB085_0000 + sid as u64);
@@ -842,10 +846,20 @@ pub fn burst_sessions(run: &mut Run, prop: &'static str) {
         }
         // half of the sessions run under strace with a delay injected after every write system
         // call: two writes that belong together but are not made under one lock are pulled apart
-        let delayed = sid % 2 == 0 && strace_ok;
+        let mut delayed = sid % 4 == 0 && strace_ok;
         if delayed {
             opts.pin_cpu = None;
             opts.strace_write_delay_us = Some(*rng.pick(&[150u32, 300, 600]));
+        }
+        // a quarter under ptdelay: a thread arriving at one of the standard library's entry
+        // points for standard output is held there for up to 0.3-2 ms while the other thread runs
+        // on - two calls that belong to one protocol line but are not made under one lock are
+        // pulled apart in user space, where strace's system-call delays cannot reach
+        let pt = sid % 4 == 2 && pt_ok;
+        if pt {
+            opts.pin_cpu = None;
+            opts.ptdelay = Some((*rng.pick(&[300u32, 1000, 2000]), seed ^ (sid as u64) << 8));
+            delayed = true;
         }
         let mut s = match Sess::start(&plain, opts, false) {
             Ok(s) => s,
@@ -859,7 +873,9 @@ pub fn burst_sessions(run: &mut Run, prop: &'static str) {
             s.position_fen(p);
             let ms = if delayed { 2 + rng.below(30) as u32 } else { *rng.pick(&[1u32, 1, 2, 2, 3, 4]) };
             let mut g = s.go(&slice_args(p.stm, ms, &mut rng), WATCHDOG);
-            if delayed {
+            if pt {
+                acc.feature("go_under_injected_stdout_call_delays");
+            } else if delayed {
                 acc.feature("go_under_injected_write_delays");
             }
             let script = vec![format!("position fen {}", p.to_fen6(0, 1)), g.args.clone()];
@@ -875,6 +891,11 @@ pub fn burst_sessions(run: &mut Run, prop: &'static str) {
                         } else {
                             acc.inconclusive.push("burst go not answered".into());
                         }
+                    } else {
+                        // C18: the lines that did arrive are still judged (a line glued to another
+                        // one starts with `info` and is no info line)
+                        s.settle(&mut g, WATCHDOG);
+                        check_transcript_lines(&g.info_lines, p, &g.args, &mut acc);
                     }
                     return acc;
                 }
@@ -897,9 +918,17 @@ pub fn burst_sessions(run: &mut Run, prop: &'static str) {
                 check_transcript_lines(&g.info_lines, p, &g.args, &mut acc);
             }
         }
+        if pt {
+            if let Some((h, d)) = s.eng.ptdelay_stats() {
+                pt_hits.fetch_add(h, std::sync::atomic::Ordering::Relaxed);
+                pt_delayed.fetch_add(d, std::sync::atomic::Ordering::Relaxed);
+            }
+        }
         acc
     });
     for a in res {
         run.acc.merge(a, &[]);
     }
+    run.set("ptrace_stdout_call_arrivals_observed", json!(pt_hits.load(std::sync::atomic::Ordering::Relaxed)));
+    run.set("ptrace_stdout_call_arrivals_delayed", json!(pt_delayed.load(std::sync::atomic::Ordering::Relaxed)));
 }
